@@ -63,11 +63,21 @@ func recordAllFuncs(p *packages.Package, fs map[string]*FuncInfo) {
 		names = append(names, n)
 	}
 	sort.Strings(names)
+	var vars []string
+	for _, nm := range p.Types.Scope().Names() {
+		if _, isV := p.Types.Scope().Lookup(nm).(*types.Var); isV {
+			vars = append(vars, nm)
+		}
+	}
 	recMu.Lock()
 	if recorded.AllFuncs == nil {
 		recorded.AllFuncs = map[string][]string{}
 	}
 	recorded.AllFuncs[p.PkgPath] = names
+	if recorded.AllVars == nil {
+		recorded.AllVars = map[string][]string{}
+	}
+	recorded.AllVars[p.PkgPath] = vars
 	recMu.Unlock()
 }
 
@@ -84,6 +94,8 @@ type inliner struct {
 	asTail    bool
 	litDone   map[*ast.FuncLit]bool
 	litFuncs  map[*ast.FuncLit]*types.Func
+	tables    map[*types.Var]*tableInfo
+	freshVars map[*types.Var]bool
 	curLHS    []ast.Expr // left-hand side of the assignment whose call is being expanded
 	curTok    token.Token
 }
@@ -122,7 +134,20 @@ func normalisePackage(m *Module, p *packages.Package) int {
 			anyFresh = true
 		}
 	}
-	if !anyFresh {
+	// package-level variables that did not exist on the pinned tree (candidate dispatch tables, tables.go)
+	pinnedVars := map[string]bool{}
+	for _, n := range tab.AllVars[p.PkgPath] {
+		pinnedVars[n] = true
+	}
+	in.freshVars = map[*types.Var]bool{}
+	if _, recordedVars := tab.AllVars[p.PkgPath]; recordedVars {
+		for _, nm := range p.Types.Scope().Names() {
+			if v, isV := p.Types.Scope().Lookup(nm).(*types.Var); isV && !pinnedVars[nm] {
+				in.freshVars[v] = true
+			}
+		}
+	}
+	if !anyFresh && len(in.freshVars) == 0 {
 		return 0
 	}
 	// the renamed form of a recorded anchor is not a new function
@@ -138,7 +163,7 @@ func normalisePackage(m *Module, p *packages.Package) int {
 			}
 		}
 	}
-	if len(in.fresh) == 0 {
+	if len(in.fresh) == 0 && len(in.freshVars) == 0 {
 		return 0
 	}
 	var objs []*types.Func
@@ -676,6 +701,13 @@ func (in *inliner) stmtsOnce(list []ast.Stmt, within *types.Func) ([]ast.Stmt, b
 					continue
 				}
 			}
+		}
+		// table-driven code back into the switch it stands for (see tables.go)
+		if repl, used, ok := in.tableLookup(list, i); ok {
+			out = append(out, repl...)
+			changed = true
+			i += used - 1
+			continue
 		}
 		if ifs, isIf := s.(*ast.IfStmt); isIf && ifs.Else == nil {
 			if as, isAs := ifs.Init.(*ast.AssignStmt); isAs {
